@@ -159,6 +159,7 @@ func propC06(w *World, r *Report) {
 	checkThrottleStartFailureSurfaces(w, r, runs, "X3")
 	checkThrottlePassThrough(w, r, runs, "X4")
 	checkSettingsImmutable(w, r, "X2", "RecorderConfig:MinSecs", "ThermalRecorder:MinSecs", "Config:Recorder") // min-secs as configured
+	checkBucketConstruction(w, r, c, "X2") // Available() >= minimum clip presumes the continuously refilled bucket
 }
 
 // checkThrottleStartFailureSurfaces: whenever the wrapped recorder refuses to start a file inside a throttler call, that
@@ -334,58 +335,7 @@ func propC05(w *World, r *Report) {
 		}
 	}
 	r.Check(nTake == 1, "T1", "exactly one token-taking site in the program", "-", fmt.Sprint(nTake))
-	// T2
-	e := newTermEnv(w)
-	e.valueHelpers = true
-	found := false
-	// the bucket is built in the constructor, or in an unexported helper of the package the constructor calls
-	// (its parameters are then bound to the constructor's arguments)
-	type site struct {
-		blocks []*ssa.BasicBlock
-		env    *termEnv
-	}
-	sites := []site{{c.Ctor.Blocks, e}}
-	for _, b := range c.Ctor.Blocks {
-		for _, in := range b.Instrs {
-			if hc, ok := in.(*ssa.Call); ok {
-				if callee := hc.Call.StaticCallee(); callee != nil && callee.Pkg == c.Ctor.Pkg && len(callee.Blocks) > 0 && !ast.IsExported(callee.Name()) {
-					ce := e.child()
-					for pi, p := range callee.Params {
-						if pi < len(hc.Call.Args) {
-							ce.bind[p] = e.termOf(hc.Call.Args[pi])
-						}
-					}
-					sites = append(sites, site{callee.Blocks, ce})
-				}
-			}
-		}
-	}
-	for _, st := range sites {
-		e := st.env
-		for _, b := range st.blocks {
-			for _, in := range b.Instrs {
-				call, ok := in.(*ssa.Call)
-				if !ok {
-					continue
-				}
-				callee := call.Call.StaticCallee()
-				if callee == nil || callee.Pkg == nil || callee.Pkg.Pkg.Path() != "github.com/juju/ratelimit" {
-					continue
-				}
-				found = true
-				r.Check(callee.Name() == "NewBucketWithRateAndClock", "T2", "bucket built with an explicit rate and the injected clock", w.InstrPos(call), callee.Name())
-				if len(call.Call.Args) >= 2 {
-					rate := e.termOf(call.Call.Args[0]).String()
-					capa := e.termOf(call.Call.Args[1]).String()
-					wantRate := "div(" + tmul(tleaf(leafFPS), tleaf("param:int")).String() + ", time.Duration.Seconds(config.ThermalThrottler.MinRefill@param:config.ThermalThrottler))"
-					wantCap := tmul(tleaf(leafFPS), mk("trunc", "", mk("call", "time.Duration.Seconds", tleaf("config.ThermalThrottler.BucketSize@param:config.ThermalThrottler")))).String()
-					r.Check(rate == wantRate, "T2", "refill rate = (minSeconds*FPS) / MinRefill.Seconds()", w.InstrPos(call), rate)
-					r.Check(capa == wantCap, "T2", "capacity = int64(BucketSize.Seconds()) * FPS", w.InstrPos(call), capa)
-				}
-			}
-		}
-	}
-	r.Check(found, "G4", "bucket constructed in the constructor", "-", "")
+	checkBucketConstruction(w, r, c, "T2")
 	// the production constructor hands the bucket a clock that is the wall clock
 	nClock := 0
 	for _, fn := range w.funcsInPkg("throttle") {
@@ -527,4 +477,62 @@ func checkThrottleWiring(w *World, r *Report) {
 		}
 	}
 	r.Floor("T4", 3)
+}
+
+// checkBucketConstruction: the token bucket is a continuous-rate bucket: built with an explicit rate
+// (minSeconds*FPS / MinRefill.Seconds()) and the injected clock, capacity int64(BucketSize.Seconds())*FPS - in the
+// constructor or an unexported helper it calls. (A quantum bucket with the same average hands the budget out in lumps:
+// Available() then no longer says how much has been earned back.)
+func checkBucketConstruction(w *World, r *Report, c *Component, rule string) {
+	e := newTermEnv(w)
+	e.valueHelpers = true
+	found := false
+	// the bucket is built in the constructor, or in an unexported helper of the package the constructor calls
+	// (its parameters are then bound to the constructor's arguments)
+	type site struct {
+		blocks []*ssa.BasicBlock
+		env    *termEnv
+	}
+	sites := []site{{c.Ctor.Blocks, e}}
+	for _, b := range c.Ctor.Blocks {
+		for _, in := range b.Instrs {
+			if hc, ok := in.(*ssa.Call); ok {
+				if callee := hc.Call.StaticCallee(); callee != nil && callee.Pkg == c.Ctor.Pkg && len(callee.Blocks) > 0 && !ast.IsExported(callee.Name()) {
+					ce := e.child()
+					for pi, p := range callee.Params {
+						if pi < len(hc.Call.Args) {
+							ce.bind[p] = e.termOf(hc.Call.Args[pi])
+						}
+					}
+					sites = append(sites, site{callee.Blocks, ce})
+				}
+			}
+		}
+	}
+	for _, st := range sites {
+		e := st.env
+		for _, b := range st.blocks {
+			for _, in := range b.Instrs {
+				call, ok := in.(*ssa.Call)
+				if !ok {
+					continue
+				}
+				callee := call.Call.StaticCallee()
+				if callee == nil || callee.Pkg == nil || callee.Pkg.Pkg.Path() != "github.com/juju/ratelimit" {
+					continue
+				}
+				found = true
+				r.Check(callee.Name() == "NewBucketWithRateAndClock", rule, "bucket built with an explicit rate and the injected clock", w.InstrPos(call), callee.Name())
+				if len(call.Call.Args) >= 2 {
+					rate := e.termOf(call.Call.Args[0]).String()
+					capa := e.termOf(call.Call.Args[1]).String()
+					wantRate := "div(" + tmul(tleaf(leafFPS), tleaf("param:int")).String() + ", time.Duration.Seconds(config.ThermalThrottler.MinRefill@param:config.ThermalThrottler))"
+					wantCap := tmul(tleaf(leafFPS), mk("trunc", "", mk("call", "time.Duration.Seconds", tleaf("config.ThermalThrottler.BucketSize@param:config.ThermalThrottler")))).String()
+					r.Check(rate == wantRate, rule, "refill rate = (minSeconds*FPS) / MinRefill.Seconds()", w.InstrPos(call), rate)
+					r.Check(capa == wantCap, rule, "capacity = int64(BucketSize.Seconds()) * FPS", w.InstrPos(call), capa)
+				}
+			}
+		}
+	}
+	r.Check(found, "G4", "bucket constructed in the constructor", "-", "")
 }
